@@ -17,6 +17,33 @@ def run(*, tier, seed, jobs, progress, opts):
     tag, data, rs = w.cmd(s, b'LOGIN demouser demopass')
     assert rs and rs[-1].name == 'OK', data
     w.close()
+    # E7: the same schedule replayed twice gives identical observations, a
+    # deviating schedule is really different, and a choice that does not
+    # exist is a hard error
+    from ..worlds import scratch_parent
+    from ..procs import ScheduleError
+    from . import mtmaildir as mt
+    from . import c04mt
+    names = ('APPEND', 'SELECT')
+    pre = [c04mt.PROGRAMS[n][0](i) for i, n in enumerate(names)]
+    progs = [c04mt.PROGRAMS[n][1](i) for i, n in enumerate(names)]
+    with scratch_parent():
+        obs = []
+        for prefix in ([], [0] * 12 + [1], [0] * 12 + [1]):
+            ex, info = mt.run_schedule('++', progs, prefix, pre=pre)
+            obs.append(([(e[0],) + tuple(e[1:2]) for e in ex.trace],
+                        [(r.name, r.code_arg) for res in info['results']
+                         for _, r, _ in res],
+                        [v[2] for v in info['final'].values()]))
+        assert obs[1] == obs[2], 'E7 replay is not deterministic'
+        assert obs[0][0] != obs[1][0], 'E7 deviation did not change the run'
+        try:
+            mt.run_schedule('++', progs, [7], pre=pre)
+        except ScheduleError:
+            pass
+        else:
+            raise AssertionError('out-of-range E7 choice was not refused')
+        mt.drop_templates()
     print('selftest ok')
     return 0
 
